@@ -39,6 +39,58 @@ type Plan struct {
 	mode   Mode
 	cancel func()
 	fired  bool
+	poison [][]byte // statements executed with one of these values among their arguments fail (persistently)
+	bitten int
+}
+
+// Poison makes every statement execution that has v among its arguments (as a blob or as a
+// string) fail with ErrInjected until Unpoison is called: a fault that a retry does not cure.
+func (p *Plan) Poison(v []byte) {
+	p.mu.Lock()
+	defer p.mu.Unlock()
+	p.poison = append(p.poison, append([]byte{}, v...))
+}
+
+// Unpoison removes all poisoned values and returns how many executions were failed.
+func (p *Plan) Unpoison() int {
+	p.mu.Lock()
+	defer p.mu.Unlock()
+	n := p.bitten
+	p.poison, p.bitten = nil, 0
+	return n
+}
+
+// Bitten returns how many executions have been failed because of a poisoned value so far.
+func (p *Plan) Bitten() int {
+	p.mu.Lock()
+	defer p.mu.Unlock()
+	return p.bitten
+}
+
+func (p *Plan) poisoned(args []driver.NamedValue) bool {
+	p.mu.Lock()
+	defer p.mu.Unlock()
+	if len(p.poison) == 0 {
+		return false
+	}
+	for _, a := range args {
+		var b []byte
+		switch v := a.Value.(type) {
+		case []byte:
+			b = v
+		case string:
+			b = []byte(v)
+		default:
+			continue
+		}
+		for _, q := range p.poison {
+			if string(b) == string(q) {
+				p.bitten++
+				return true
+			}
+		}
+	}
+	return false
 }
 
 // Arm starts numbering calls; failAt = 0 only counts. cancel is used by ModeCancel.
@@ -171,6 +223,9 @@ func (c *conn) ExecContext(ctx context.Context, q string, args []driver.NamedVal
 	if err := c.p.hit("conn-exec:" + StmtKind(q)); err != nil {
 		return nil, err
 	}
+	if c.p.poisoned(args) {
+		return nil, ErrInjected
+	}
 	return c.c.ExecContext(ctx, q, args)
 }
 
@@ -212,6 +267,9 @@ func (s *stmt) Query(args []driver.Value) (driver.Rows, error) {
 func (s *stmt) ExecContext(ctx context.Context, args []driver.NamedValue) (driver.Result, error) {
 	if err := s.p.hit("exec:" + s.kind); err != nil {
 		return nil, err
+	}
+	if s.p.poisoned(args) {
+		return nil, ErrInjected
 	}
 	return s.s.ExecContext(ctx, args)
 }
